@@ -230,6 +230,9 @@ def _rand_p(rng, nreg, dens, rich, reg_inherited):
       p["kids"].append({"k": "br"})
     else:
       p["kids"].append(_rand_ruby(rng, rich))
+  if nreg and not reg_inherited and p["reg"] < 0 and any(k["k"] == "ruby" for k in p["kids"]):
+    # a ruby in a paragraph that no region selects makes ISD generation itself raise (outside C06/C07): keep it selected
+    p["reg"] = rng.randrange(nreg)
   return p
 
 
@@ -318,3 +321,74 @@ def shape_doc(shape):
   p = {"k": "p", "reg": 0, "sp": "p" if preserve else "", "b": "0/1", "e": "2/1", "st": {"ta": "center"}, "kids": kids}
   return {"regions": [{"id": "r1", "origin": ["10/1", "10/1"], "extent": ["80/1", "80/1"], "da": "after"}],
           "body": [{"k": "div", "reg": -1, "kids": [p]}]}
+
+
+# -----------------------------------------------------------------------------------------------------------------
+# structure shapes (spec -> code, C06); a shape is an initial state of spec/CuesShapes.tla with fam = "struct"
+# -----------------------------------------------------------------------------------------------------------------
+
+STRUCTS = {"1div1p": [[1]], "1div2p": [[1, 2]], "2div": [[1], [2]], "2div2p": [[1, 2], [3]], "nested": [[[1]]], "nested2": [[1, [2]]]}
+
+
+def _content(kind, j):
+  def T(s):
+    return {"k": "t", "s": s}
+
+  def S(kids, sp_=""):
+    return {"k": "span", "sp": sp_, "st": {}, "kids": kids}
+  if kind == "plain":
+    return "", [S([T("T%d" % j)])]
+  if kind == "br":
+    return "", [S([T("a%d" % j), {"k": "br"}, T("b%d" % j)])]
+  if kind == "ruby":
+    return "", [{"k": "ruby", "kids": [{"k": "rb", "kids": [S([T("K%d" % j)])]}, {"k": "rt", "kids": [S([T("r")])]}]}, S([T("x%d" % j)])]
+  if kind == "spans":
+    return "", [S([T("s%d " % j)]), S([S([T("n%d" % j)])])]
+  if kind == "ws":
+    return "", [S([T("w%d" % j)]), {"k": "br"}, S([T(" ")]), {"k": "br"}, S([T("v%d" % j)])]
+  if kind == "preserve":
+    return "p", [S([T("  p%d  " % j), {"k": "br"}, T("  "), {"k": "br"}, T("q%d" % j)])]
+  raise ValueError(kind)
+
+
+def _timing(pattern, j):
+  F = Fraction
+  if pattern == "same":
+    return F(0), F(2)
+  if pattern == "staggered":
+    return F(j - 1), F(j + 1)
+  if pattern == "sub":
+    return [(F(0), F(1, 3000)), (F(1), F(1) + F(3, 2000)), (F(2), F(2) + F(1, 8000))][j - 1]
+  if pattern == "unbounded":
+    return F(j - 1), None
+  if pattern == "gap":
+    return F(2 * (j - 1)), F(2 * (j - 1) + 1)
+  raise ValueError(pattern)
+
+
+def struct_doc(shape):
+  """shape = {"struct", "c1", "c2", "timing", "regs"} -> abstract document."""
+  regs = shape["regs"]
+  nreg = {"none": 0, "one": 1, "two_alt": 2, "two_div": 2}[regs]
+  regions = [{"id": "r%d" % (i + 1), "origin": ["10/1", "%d/1" % (10 + 40 * i)], "extent": ["80/1", "61/2"],
+              "da": ["after", "before"][i]} for i in range(nreg)]
+
+  def mk_p(j):
+    sp_, kids = _content(shape["c1"] if j == 1 else shape["c2"], j)
+    b, e = _timing(shape["timing"], j)
+    reg = -1
+    if regs == "one":
+      reg = 0
+    elif regs == "two_alt":
+      reg = (j - 1) % 2
+    return {"k": "p", "reg": reg, "sp": sp_, "b": tstr(b), "e": tstr(e), "st": {}, "kids": kids}
+
+  def mk_div(entries, top_index):
+    d = {"k": "div", "reg": -1, "kids": []}
+    if regs == "two_div" and top_index is not None:
+      d["reg"] = top_index % 2
+    for en in entries:
+      d["kids"].append(mk_div(en, None) if isinstance(en, list) else mk_p(en))
+    return d
+  body = [mk_div(entries, k) for k, entries in enumerate(STRUCTS[shape["struct"]])]
+  return {"regions": regions, "body": body}
